@@ -81,6 +81,23 @@ def load(target: str, client_src=None) -> FuncSrc:
         if isinstance(st_, ast.Import):
             for al in st_.names:
                 fs.aliases[al.asname or al.name] = al.name
+    # module-level numeric / string / bool constants (NAME = <constant expression>): part of the function's meaning
+    fs.module_consts = {}
+    for st_ in tree.body:
+        tgt, val = None, None
+        if isinstance(st_, ast.Assign) and len(st_.targets) == 1 and isinstance(st_.targets[0], ast.Name):
+            tgt, val = st_.targets[0].id, st_.value
+        elif isinstance(st_, ast.AnnAssign) and isinstance(st_.target, ast.Name) and st_.value is not None:
+            tgt, val = st_.target.id, st_.value
+        if tgt is None:
+            continue
+        try:
+            if all(isinstance(n, (ast.Expression, ast.Constant, ast.BinOp, ast.UnaryOp, ast.operator, ast.unaryop)) for n in ast.walk(val)):
+                v = eval(compile(ast.Expression(val), "<const>", "eval"), {"__builtins__": {}}, {})   # noqa: S307 (constants only)
+                if isinstance(v, (int, float, str, bool)):
+                    fs.module_consts[tgt] = v
+        except Exception:  # noqa
+            pass
     _cache[key] = fs
     return fs
 
